@@ -306,6 +306,6 @@ func c20Oracle(c *C20Case) string {
 }
 
 func TestC20(t *testing.T) {
-	S("C20").Rule = "1-6 command names (len 1-8 over {a,b,c,d,é,è,ũ,д,н,中,丟}, ~20% hidden, alternating tag/programmatic declaration) x word (absent | random | 1-3 edits of a name); oracle: own rune Levenshtein + parsed message. non-trivial: word is no command name and (nearest visible distance <= 3 or multi-byte involved), or command-required with >= 2 visible; distinct by (names, hidden, word)"
+	S("C20").Rule = "1-6 command names (len 1-8 over {a,b,c,d,é,è,ũ,д,н,中,丟}, in 5% of cases extended to 56-138 characters, ~20% hidden, alternating tag/programmatic declaration) x word (absent | random | 1-3 edits of a name); oracle: own rune Levenshtein + parsed message. non-trivial: word is no command name and (nearest visible distance <= 3 or multi-byte involved), or command-required with >= 2 visible; distinct by (names, hidden, word)"
 	runProp(t, "C20", genC20, c20Oracle)
 }
